@@ -404,3 +404,70 @@ func Verif_C02_HugeBody(kb int) {
 	}
 	verifsym.Reach("end")
 }
+
+// Verif_C02_RecoverAfterFailure: a run in which one (generator, type) fails
+// (error / deferred error / unparseable text, every position by case split) is
+// followed, in the same process and module, by a run in which everything
+// renders. The second run must succeed and leave exactly the files that the
+// same all-render run leaves in a fresh module: nothing of the failed run
+// (buffers, import tables, instances) may survive into the next one.
+func Verif_C02_RecoverAfterFailure() {
+	pp, qp := "example.com/m/p", "example.com/m/q"
+	types := []vTypeSpec{{name: "A", tags: vBoth}, {name: "B", tags: vBoth}}
+	qTypes := []vTypeSpec{{name: "T", tags: vBoth}}
+	allRender := func() {
+		vReset()
+		for _, g := range []string{"ga", "gb"} {
+			vSet(g, pp, "A", vActRender)
+			vSet(g, pp, "B", vActRender)
+			vSet(g, qp, "T", vActRender)
+		}
+	}
+	// reference: the all-render run in a fresh module
+	allRender()
+	ref := vNewWorldAt("ref")
+	ref.addPkgNoFiles("p", true, "h1:p", types)
+	ref.addPkgNoFiles("q", true, "h1:q", qTypes)
+	verifsym.Assert(ref.exec(true, true, nil, vProtoA(), &vGenB{}) == nil, "Execute fails")
+	refFiles := map[string]string{}
+	for f, d := range vSnapshot() {
+		if vHasPrefix(f, ref.root+"/") {
+			refFiles[f[len(ref.root):]] = d
+		}
+	}
+
+	// run 1: one position fails
+	allRender()
+	gens := []string{"ga", "gb"}
+	pos := [][2]string{{pp, "A"}, {pp, "B"}, {qp, "T"}}
+	g := gens[verifsym.IntRange(0, 1)]
+	at := pos[verifsym.IntRange(0, 2)]
+	vSet(g, at[0], at[1], vAct(vActError, vActDeferErr, vActBadSyntax))
+	w := vNewWorld()
+	w.addPkgNoFiles("p", true, "h1:p", types)
+	w.addPkgNoFiles("q", true, "h1:q", qTypes)
+	verifsym.Assert(w.exec(true, true, nil, vProtoA(), &vGenB{}) != nil, "a generator failed (or rendered unparseable text) but Execute returned nil")
+
+	// run 2: everything renders
+	allRender()
+	w.pkgs, w.local, w.sums = map[string]gengotypesPackage{}, map[string]bool{}, map[string]string{}
+	w.addPkgNoFiles("p", true, "h1:p", types)
+	w.addPkgNoFiles("q", true, "h1:q", qTypes)
+	verifsym.Assert(w.exec(true, true, nil, vProtoA(), &vGenB{}) == nil, "the run after a failed run fails")
+	got := map[string]string{}
+	for f, d := range vSnapshot() {
+		if vHasPrefix(f, w.root+"/") {
+			got[f[len(w.root):]] = d
+		}
+	}
+	for f, d := range refFiles {
+		d2, ok := got[f]
+		verifsym.Assert(ok, "a file is missing after the run that followed a failed run")
+		verifsym.Assert(!ok || d2 == d, "the run after a failed run writes other content than the same run in a fresh module (state of the failed run survived)")
+	}
+	for f := range got {
+		_, ok := refFiles[f]
+		verifsym.Assert(ok, "the run after a failed run leaves a file the same run in a fresh module does not write")
+	}
+	verifsym.Reach("end")
+}
